@@ -41,6 +41,18 @@ def run_item(args):
             type(e).__name__, e, os.path.basename(tb.filename), tb.lineno)))
     except Exception as e:
         crashed = traceback.format_exc()
+    # a function counts as "under contract" only if some explored path executed its body: a declaration without an exercising
+    # contract is an annotation, not a proof ("do not count annotated functions as proved ones")
+    entered = getattr(vc, 'entered', set())
+    if not crashed and entered:
+        for key, rec in list(vc.functions.items()):
+            rel, qual = key.split('::')
+            l0, l1 = [int(x) for x in rec['lines'].split('-')]
+            mods = {rel[:-3].replace('/', '.'), rel[:-len('/__init__.py')].replace('/', '.') if rel.endswith('/__init__.py') else None}
+            hit = any(m in mods and ln is not None and l0 <= ln <= l1 for m, ln in entered)
+            rec['exercised'] = bool(hit)
+            if not hit:
+                vc.undecided.append(api.Undecided(key, 'NOT-EXERCISED: declared under contract but no explored path executed its body'))
     obls = []
     both = tier == 'thorough'
     for o in vc.obligations:
